@@ -1285,7 +1285,7 @@ func (x *Exec) event(st *State, ev Event) *Event {
 			ev.Args[i] = a
 		}
 	}
-	if strings.HasPrefix(ev.Name, "destination.") && !x.DryRun {
+	if (strings.HasPrefix(ev.Name, "destination.") || strings.HasSuffix(ev.Name, ".NextWithContext") || strings.HasSuffix(ev.Name, ".ErrorWithContext") || strings.HasSuffix(ev.Name, ".CompleteWithContext")) && !x.DryRun {
 		ev.Cells = map[string]SVal{}
 		for key, v := range st.Heap {
 			if strings.ContainsAny(key, ".#:@[!") {
